@@ -24,6 +24,9 @@ Commands:
     item <agent> <timestep> <action> <status> <request VALUE> <parameters VALUE> <data VALUE>  -> ok
     step                             -> `ok a=cur:total:hist,b=…` | `raised <err>` (act; advance; update_agents, exceptions included)
     mem                              -> component memories per agent
+    info                             -> per agent the fingerprint of `reward_info` of its newest history item as `update_reward` leaves it
+    newconfig                        -> ok    (forget the declared agents and set orders: the next episode has another configuration)
+    comp <weight> unknown <type> | comp <weight> invalid   (an unregistered component type / an entry violating its schema)
     locs                             -> per agent and component `<location_in_state>|<read-set>` (`_` = reads no state; read-set ⊆ `ars`:
                                         action, request, response.status of the agent's own latest history item)
     access <VALUE path>              -> `ok <fingerprint>` | `absent` | `raised <err>`  (access_from_nested_dict on the state)
@@ -37,7 +40,7 @@ Commands:
 -/
 
 structure DState where
-  cfgs : List AgentCfg := []
+  cfgs : List AgentCfgRaw := []
   table : List (List Name × List Name) := []
   game : Option Game := none
   sim : SimState := .dict []
@@ -188,9 +191,14 @@ def parseComp : List String → Option Comp
     | _, _ => none
   | _ => none
 
+def parseCompCfg : List String → Option CompCfg
+  | ["unknown", t] => some (.unknownType (unescape t))
+  | ["invalid"] => some .invalid
+  | ws => (parseComp ws).map .known
+
 def showErr : Err → String
   | .cycle => "cycle" | .keyError => "keyError" | .indexError => "indexError"
-  | .typeError => "typeError" | .attributeError => "attributeError"
+  | .typeError => "typeError" | .attributeError => "attributeError" | .validationError => "validationError"
 
 def showAgents (g : Game) : String :=
   ",".intercalate (g.agents.map (fun p => s!"{escape p.1}={showRat p.2.current}:{showRat p.2.total}:{p.2.hist.length}"))
@@ -255,12 +263,20 @@ def step (d : DState) : List String → DState × String
     ({ d with table := ((splitList ins).map unescape, (splitList obs).map unescape) :: d.table }, "ok")
   | ["agent", ref] => ({ d with cfgs := d.cfgs ++ [{ ref := unescape ref, comps := [] }] }, "ok")
   | "comp" :: w :: rest =>
-    match (if w = "default" then some defaultWeight else parseRat w), parseComp rest, d.cfgs.getLast? with
+    match (if w = "default" then some defaultWeight else parseRat w), parseCompCfg rest, d.cfgs.getLast? with
     | some w, some c, some last =>
       ({ d with cfgs := d.cfgs.dropLast ++ [{ last with comps := last.comps ++ [(c, w)] }] }, "ok")
     | _, _, _ => (d, "bad-op")
-  | ["load"] => loadAnswer d (fromConfig (sigmaOf d.table) d.cfgs)
-  | ["envreset"] => loadAnswer { d with items := [] } (resetEnv (sigmaOf d.table) d.cfgs d.sim)
+  | ["load"] => loadAnswer d (fromConfigRaw (sigmaOf d.table) d.cfgs)
+  | ["envreset"] => loadAnswer { d with items := [] } (resetEnvRaw (sigmaOf d.table) (fun _ => d.cfgs) 0 d.sim)
+  | ["newconfig"] => ({ d with cfgs := [], table := [] }, "ok")
+  | ["info"] =>
+    match d.game with
+    | none => (d, "no-game")
+    | some g => (d, ",".intercalate (g.agents.map (fun p =>
+        s!"{escape p.1}=" ++ (match p.2.hist with
+          | (it, _) :: _ => toString (fingerprint (rewardInfoAfter it p.2.comps))
+          | [] => "-"))))
   | "state" :: ws =>
     match parseWhole ws with
     | some v => ({ d with sim := v }, "ok")
